@@ -13,5 +13,24 @@ CHECKS = {
     text="For every isal_ entry point CBMC decides over all combinations of NULL / valid / dangling pointers and all scalar values that an out-of-domain call returns a documented code of an offending argument, reaches no internal, dereferences nothing (dangling pointers make any dereference a failed pointer check) and changes no object, and that in-domain calls return 0 and hand the caller's arguments unchanged to the internal; each legacy entry point reaches the same internal with the same argument tuple as its isal_ counterpart.",
     note="Trusted: CBMC, the domain table spec/api_domain.py (written from the headers), positional correspondence of legacy/isal_ arguments. Internals are uninterpreted stubs."),
 }
+X_NOTE = "Trusted: CBMC; manager contract M and kernel contract K (stubs here, decided on the assembly by the asmsym parts); the stream-provenance model in cbmc/ctx_harness.c; composition K o M o X is a paper argument. Pointer-overflow checking is off in this harness (the caller's buffer is a 1-byte object used only for address arithmetic)."
+CHECKS.update({
+ "C01": dict(engine="cbmc-c", design_ref="DESIGN.md 4/C01 (X)", technique="bounded model checking (CBMC): one inductive step of the real context layer per file from an arbitrary valid state, symbolic 64-bit totals / 32-bit lengths, stream-provenance ghost model",
+    text="For each of the 29 multi-buffer *_ctx_<family>.c files CBMC decides, for an arbitrary idle/fresh/complete context, arbitrary 64-bit running total, arbitrary 32-bit length, flags and buffer address, that the jobs handed to the manager cover exactly the next unhashed stream bytes in order (carried block, bulk blocks, padding), that the chaining value given to each job is the previous job's result or the standard IV, that the padding is the standard padding of the exact total (real hash_pad proved separately for all totals), and that the state left behind satisfies the invariant again. No length bound.",
+    note=X_NOTE),
+ "C06": dict(engine="cbmc-c", design_ref="DESIGN.md 4/C06 (X)", technique="bounded model checking (CBMC) of the real context layer: flush / submit / resubmit steps from arbitrary in-flight states with conservation assertions",
+    text="CBMC decides per context-layer file that a context handed back is not inside the manager and not marked PROCESSING, is COMPLETE exactly after LAST and IDLE otherwise, that a context kept inside is marked PROCESSING, that no context is dropped (neither returned nor held), that flush returns NULL only when the manager holds nothing and returns only submitted contexts, and that user_data is untouched.",
+    note=X_NOTE),
+ "C11": dict(engine="cbmc-c", design_ref="DESIGN.md 4/C11", technique="bounded model checking (CBMC): single-step rejection harness on every context-layer file + wrapper scenario (real isal_ submit wrapper + real context layer + nondeterministic manager)",
+    text="CBMC decides for all five context statuses, all 32-bit flag values and all arguments that a rejected submit returns the context with the matching error, never reaches the manager and leaves every other context field unchanged; and that the isal_ wrapper returns 0 for every submit that passes the three acceptance tests even when the manager hands back another context carrying a stale error (P0/P1 of DESIGN.md).",
+    note=X_NOTE),
+ "C15": dict(engine="cbmc-c", design_ref="DESIGN.md 4/C15", technique="bounded model checking (CBMC): context-layer induction step with free 64-bit totals (thorough: explicit slices beyond 2^29, 2^32, 2^32+2^29) and the real hash_pad against the padding definition",
+    text="CBMC decides that total_length after a step equals the previous total plus len (no wrap), that the padding length field is the 64-/128-bit encoding of total*8 for every 64-bit total below 2^61 (real hash_pad, all families incl. little-endian MD5), and that every job's block count stays inside the manager's precondition.",
+    note=X_NOTE),
+})
+for e in ENGINES:
+    if e["name"] == "cbmc-c":
+        e["serves_properties"] = ["C01", "C06", "C11", "C13", "C15", "C16"]
+        e["path"] += ", lib/ctxlayer.py"
 NOT_APPLICABLE = {p: "check under construction in this round (design in DESIGN.md section 4); not claimed until its command exists and passes on the unchanged tree" for p in
                   ["C01", "C02", "C03", "C04", "C05", "C06", "C07", "C08", "C09", "C10", "C11", "C12", "C14", "C15", "C17", "C18", "C19", "C20"]}
